@@ -86,6 +86,17 @@ def judge_vm(res, code, cfg, feats, r):
     if ev != api:
         res.violation("c03:fork-counter-disagrees", "fork events %s vs cond_jump_count %s" % (ev, api), case)
         return True
+    # (ii-b) every single fork decision, judged by the in-driver monitor from its own per-thread visit counts and
+    # per-target fork counts: no fork once either limit is reached (the converse - a fork refused although both limits
+    # allow it - is C08's business and is reported there)
+    res.count("fork_decisions_checked", mon.get("fork_decisions", 0))
+    for m in mon.get("fork_mismatches", []):
+        if not m["expected"] and m["actual"]:
+            res.violation("c03:fork-beyond-limits",
+                          "JUMPI at %d forked to %d although the thread had visited the target %d times (limit %d) and it had "
+                          "been forked to %d times (limit %d)" % (m["ip"], m["target"], m["thread_visits_of_target"], L,
+                                                                 m["forks_to_target"], F), case)
+            return True
     # (iii) threads
     states = r["visits"]["states"]
     if states > threads_max or mon["threads_created"] > threads_max:
@@ -189,7 +200,7 @@ def shard(shard_no, nshards, seed, tier, extra):
                "permissive": rng.random() < 0.5}
         res.evaluations += 1
         threads_max, J, bound = step_bound(code, cfg)
-        req = {"op": "analyze", "code": code.hex(), "direct_vm": True, "cfg": cfg,
+        req = {"op": "analyze", "code": code.hex(), "direct_vm": True, "cfg": cfg, "observe": ["forks"],
                "wd": {"every": 1, "stop_at": bound}}
         rv = d.call(req, timeout=300)
         bad = judge_vm(res, code, cfg, feats, rv)
